@@ -583,11 +583,11 @@ pub fn replay_in_child(path: &Path, strict: bool) -> ReplayOutcome {
     if strict {
         cmd.arg("--strict");
     }
-    // a replay that does not come back is killed (FV_REPLAY_TIMEOUT_S, default 300 s)
+    // a replay that does not come back is killed (FV_REPLAY_TIMEOUT_S, default 120 s)
     let limit = std::env::var("FV_REPLAY_TIMEOUT_S")
         .ok()
         .and_then(|s| s.parse::<u64>().ok())
-        .unwrap_or(300);
+        .unwrap_or(120);
     cmd.stdout(std::process::Stdio::piped()).stderr(std::process::Stdio::piped());
     let mut child = cmd.spawn().expect("spawn replay");
     let t0 = Instant::now();
@@ -713,7 +713,32 @@ pub fn parent<P: Prop>(tier: Tier, seed: u64) -> i32 {
         for mut c in children.drain(..) {
             match c.child.try_wait().unwrap() {
                 None => {
-                    if Instant::now() > deadline {
+                    // one case that does not return: the breadcrumb has not been
+                    // rewritten for a long time (cases take milliseconds to seconds)
+                    let stale = std::fs::metadata(&c.crumb)
+                        .and_then(|m| m.modified())
+                        .ok()
+                        .and_then(|t| t.elapsed().ok())
+                        .map(|d| d.as_secs())
+                        .unwrap_or(0);
+                    let case_limit: u64 = std::env::var("FV_CASE_TIMEOUT_S")
+                        .ok()
+                        .and_then(|s| s.parse().ok())
+                        .unwrap_or(300);
+                    if stale > case_limit {
+                        let _ = c.child.kill();
+                        let _ = c.child.wait();
+                        inconclusive = true;
+                        let saved = std::fs::read_to_string(&c.crumb)
+                            .ok()
+                            .and_then(|s| serde_json::from_str::<Value>(&s).ok())
+                            .map(|v| write_replay(P::ID, "did-not-return", "a worker spent more than the per-case limit on this case", &v));
+                        notes.push(format!(
+                            "worker {}: one case did not return within {case_limit} s; worker killed (case: {})",
+                            c.index,
+                            saved.map(|p| p.display().to_string()).unwrap_or("not saved".into())
+                        ));
+                    } else if Instant::now() > deadline {
                         let _ = c.child.kill();
                         let _ = c.child.wait();
                         inconclusive = true;
